@@ -51,7 +51,7 @@ theorem fallbackReply_ok (f : From) (e : Entry) : okOne f [fallbackReply e] = tr
 
 /-- before the session is established nothing is ever sent: the stream is closed instead -/
 theorem dispatch_negotiating (exts : List Row) (s : Stanza) (hp : s.phase = .negotiating)
-    (he : s.entry ≠ .inject) : dispatch exts s = ⟨.negotiation, [], true⟩ := by
+    (he : s.entry ≠ .inject) : dispatch exts s = { by_ := .negotiation, sent := [], disconnect := true } := by
   have h1 : (s.entry != .inject) = true := by simpa using he
   simp [dispatch, hp, h1]
 
@@ -106,6 +106,7 @@ theorem transfer_good (l : Lsn) (j : Job) (m : Mgr) (s : Stanza) :
   generalize ibbDataKind j s = k2
   generalize ibbOpenKind j s = k3
   generalize siSetKind l s = k4
+  generalize proxyMatch j s = pm
   generalize headIs s .close .ibb = a
   generalize headIs s .data .ibb = b
   generalize headIs s .openT .ibb = c
@@ -114,7 +115,7 @@ theorem transfer_good (l : Lsn) (j : Job) (m : Mgr) (s : Stanza) :
   generalize s.type = t
   generalize s.dec = e
   generalize s.frm = f
-  cases a <;> cases b <;> cases c <;> cases d <;> cases g <;> cases e <;> cases t <;> cases f <;> rfl
+  cases a <;> cases b <;> cases c <;> cases d <;> cases g <;> cases pm <;> cases e <;> cases t <;> rfl
 
 theorem row_good (m : Mgr) (s : Stanza) : (rowOf m).good s = true := by
   cases m
